@@ -1597,8 +1597,8 @@ func (f *fnTrans) loopEntry(li *loopInfo, preds []*ssa.BasicBlock, conds []Term)
 	// finished objects received as parameters satisfy their type invariant at the loop head too
 	// (every store of this function to such an object re-establishes it on the spot)
 	for _, p := range f.fn.Params {
-		if _, ok := p.Type().Underlying().(*types.Pointer); ok && !f.isConstructing(p) {
-			if inv := f.typeInv(f.vals[p], p.Type()); inv.S != "true" {
+		if !f.isConstructing(p) {
+			if inv := f.finishedInv(f.vals[p], p.Type()); inv.S != "true" {
 				f.factHere(inv)
 			}
 		}
@@ -1749,6 +1749,32 @@ func (f *fnTrans) isConstructing(v ssa.Value) bool {
 		}
 	}
 	return false
+}
+
+// finishedInv: what holds of a finished object referenced by t (pointer: its type invariant;
+// interface: the invariant of whichever type of the package is behind it), in the current state.
+func (f *fnTrans) finishedInv(t Term, typ types.Type) Term {
+	switch u := typ.Underlying().(type) {
+	case *types.Pointer:
+		return f.typeInv(t, typ)
+	case *types.Interface:
+		var out []Term
+		seenT := map[string]bool{}
+		for _, ti := range f.w.Spec.TypeInvs {
+			if seenT[ti[0]] {
+				continue
+			}
+			seenT[ti[0]] = true
+			if obj, ok := f.w.TPkg.Scope().Lookup(ti[0]).(*types.TypeName); ok {
+				pt := types.NewPointer(obj.Type())
+				if types.Implements(pt, u) {
+					out = append(out, Implies(And(Ne(t, IntLit(0)), Eq(App("dyntype", SInt, t), f.w.Tag(pt))), f.typeInv(t, pt)))
+				}
+			}
+		}
+		return And(out...)
+	}
+	return True
 }
 
 // typeInvIn: typeInv evaluated in state st.
